@@ -344,18 +344,24 @@ def edit_constant(parameterized):
     """
     kls_params = parameterized.param.objects(instance=False)
     inst_params = parameterized._param__private.params
+    # kls_params is the cached namespace, which is emptied when parameters
+    # are added or copied into a subclass while the block is open
+    kls_names = set(kls_params)
     updated = []
     for pname, pobj in (kls_params | inst_params).items():
         if pobj.constant:
             pobj.constant = False
-            updated.append(pname)
+            updated.append((pname, pobj))
     try:
         yield
     finally:
-        for pname in updated:
+        for pname, pobj in updated:
+            # Restore the very object that was edited (a class-level set on a
+            # subclass inside the block replaces it in the namespace).
+            pobj.constant = True
             # Some operations trigger a parameter instantiation (copy),
             # we ensure both the class and instance parameters are reset.
-            if pname in kls_params:
+            if pname in kls_names:
                 type(parameterized).param[pname].constant=True
             if pname in inst_params:
                 parameterized.param[pname].constant = True
